@@ -9,7 +9,9 @@ outputs / data) whose iteration order is random, and from the dependency list, w
 order parsing and concurrent resolution add to it.  The theorems say that none of these orders can reach
 the pre-image `ruleSer Generated.C08.facts` — the model of `build.ruleHash` instantiated with the write
 schema and the per-accessor sort flags read from /repo on this run — and `C07_facts_ok` is the obligation
-that every such map range is sorted (or an order-insensitive maximum) in today's source.
+that every such map range is sorted (or an order-insensitive maximum) in today's source, and that output-hash
+checking works on a copy of `target.Hashes` (`C07_hash_check_stable`; the aliasing defect it replaced is kept as
+`C07_witness_hash_check_aliasing`).
 -/
 namespace PlzVerif.Props.C07
 open PlzVerif.RuleHash PlzVerif.Generated
@@ -23,7 +25,9 @@ def FactsOK : Bool :=
   -- the ranges the model knows about are all present (a new, unsorted one would be listed as UNSORTED;
   -- a vanished one means the code was restructured)
   ["target.Provides", "eps", "target.namedOutputs", "named", "commands"].all
-    (fun e => C07.mapRanges.any fun r => r.2.1 == e)
+    (fun e => C07.mapRanges.any fun r => r.2.1 == e) &&
+  -- UnprefixedHashes strips the algorithm prefixes on a copy, not inside target.Hashes
+  !C07.unprefixedAliases
 
 /-- Obligation a code change can break: dropping one `sort.Strings` / `sort.Sort` makes it false. -/
 theorem C07_facts_ok : FactsOK = true := by decide
@@ -31,7 +35,7 @@ theorem C07_facts_ok : FactsOK = true := by decide
 theorem allSorted : F.allSorted = true := by
   have h := C07_facts_ok
   simp only [FactsOK, Bool.and_eq_true] at h
-  exact h.1.1
+  exact h.1.1.1
 
 /-- Main theorem: the rule-hash pre-image is the same for every iteration order of every map-typed field and
     every insertion order of the dependencies (no bound on sizes). -/
@@ -72,33 +76,44 @@ theorem C07_sort_needed :
     ruleSer { F with hashMapSorted := false } {} t1 ≠ ruleSer { F with hashMapSorted := false } {} t2 ∧
     ruleSer { F with depsSorted := false } {} t1 ≠ ruleSer { F with depsSorted := false } {} t2 := by decide
 
-/-! ### the rule hash as a function of the *definition*: `UnprefixedHashes` rewrites the target -/
+/-! ### the rule hash as a function of the *definition*: output-hash checking must not rewrite the target -/
 
-/-- Full strength: checking the output hashes of a built target leaves its (post-build) rule hash alone. -/
-def StableUnderHashCheck (F : Facts) : Prop :=
-  ∀ (c : Ctx) (t : Target), postBuildSer F c t (afterHashCheck t) = postBuildSer F c t t
+/-- Checking the output hashes of a built target leaves its (post-build) rule hash alone.
+    `aliases` is how `UnprefixedHashes` obtains its working slice (regenerated fact `C07.unprefixedAliases`). -/
+def StableUnderHashCheck (F : Facts) (aliases : Bool) : Prop :=
+  ∀ (c : Ctx) (t : Target), postBuildSer F c t (afterHashCheck aliases t) = postBuildSer F c t t
+
+/-- Full strength, for the code as it is now (`hashes := slices.Clone(target.Hashes)`): the rule hash of an
+    unchanged target is the same before and after its outputs were hash-checked. -/
+theorem C07_hash_check_stable : StableUnderHashCheck F C07.unprefixedAliases := by
+  have h : C07.unprefixedAliases = false := by
+    have := C07_facts_ok
+    simp only [FactsOK, Bool.and_eq_true, Bool.not_eq_true'] at this
+    exact this.2
+  intro c t
+  simp [afterHashCheck, h]
 
 def th : Target := { label := ⟨[], [112], [116]⟩, hashes := [[115, 104, 97, 49, 58, 32, 97, 98]], outputDirs := [[111, 100]] }
 
-/-- `hashes = ["sha1: ab"]` on a target with `output_dirs`: `checkRuleHashes` → `UnprefixedHashes` turns the
-    entry into `"ab"` *inside the target*, and the post-build rule hash written next to the outputs is not the one
-    the next invocation computes (observed end to end: the target is rebuilt on every `plz build`). -/
-theorem C07_witness_hash_check : ¬ StableUnderHashCheck F := by
+/-- The defect that was repaired (kept as a theorem about the *old* fact value): with `hashes := target.Hashes[:]`
+    the entry `"sha1: ab"` of a target with `output_dirs` became `"ab"` inside the target, and the post-build rule
+    hash stored with the outputs was not the one the next invocation computed (the target was rebuilt on every run). -/
+theorem C07_witness_hash_check_aliasing : ¬ StableUnderHashCheck F true := by
   intro h
   have := h {} th
   revert this
   decide
 
-/-- It is stable for targets that cannot modify themselves while building (the memoised hash is returned) and
-    for hashes without an algorithm prefix / surrounding blanks. -/
-theorem C07_partial_hash_check (c : Ctx) (t : Target)
+/-- Even with the aliasing it was stable for targets that cannot modify themselves while building and for hashes
+    without an algorithm prefix / surrounding blanks. -/
+theorem C07_partial_hash_check_aliasing (c : Ctx) (t : Target)
     (h : couldModify t = false ∨ ∀ x ∈ t.hashes, unprefix x = x) :
-    postBuildSer F c t (afterHashCheck t) = postBuildSer F c t t := by
+    postBuildSer F c t (afterHashCheck true t) = postBuildSer F c t t := by
   rcases h with h | h
-  · have h' : couldModify (afterHashCheck t) = false := by simpa [couldModify, afterHashCheck] using h
+  · have h' : couldModify (afterHashCheck true t) = false := by simpa [couldModify, afterHashCheck] using h
     simp [postBuildSer, h, h']
-  · have e : afterHashCheck t = t := by
-      unfold afterHashCheck
+  · have e : afterHashCheck true t = t := by
+      simp only [afterHashCheck, if_true]
       have : t.hashes.map unprefix = t.hashes := by
         conv => rhs; rw [← List.map_id t.hashes]
         exact List.map_congr_left h
